@@ -5,11 +5,13 @@ import (
 	"fmt"
 	"io"
 	"log"
+	"os"
 	"runtime/debug"
 	"strings"
 	"time"
 
 	"github.com/la5nta/wl2k-go/fbb"
+	"github.com/la5nta/wl2k-go/mailbox"
 
 	"verifharness/internal/rec"
 )
@@ -42,6 +44,18 @@ type Fault struct {
 	Delta   int    `json:"delta,omitempty"`   // pair: +delta at At, -delta at At2
 }
 
+// TmpBase is where directory mailboxes are created.
+var TmpBase = os.TempDir()
+
+// Cleanup removes the stations' temporary directories.
+func Cleanup(st map[string]*Station) {
+	for _, s := range st {
+		if s.tmp != "" {
+			os.RemoveAll(s.tmp)
+		}
+	}
+}
+
 var calls = map[string]string{"A": "LA1AAA", "B": "LA2BBB"}
 
 func peerOf(s string) string {
@@ -71,7 +85,7 @@ func newLinkObserver(r *Recorder) *linkObserver {
 func (o *linkObserver) unit(s string, u Unit) {
 	ev := rec.Event{"op": "Unit", "s": s, "kind": u.Kind}
 	for k, v := range u.F {
-		if k == "payload" || k == "chunks" {
+		if k == "payload" || k == "chunks" || k == "hdrStruct" {
 			continue
 		}
 		ev[k] = v
@@ -266,6 +280,16 @@ func makeAlter(f *Fault) func(int, byte) []byte {
 // Setup builds the two stations of a scenario and queues its messages.
 func Setup(sc *Scenario, r *Recorder) map[string]*Station {
 	st := map[string]*Station{"A": NewStation("A", calls["A"], r), "B": NewStation("B", calls["B"], r)}
+	if sc.Handler == "dir" {
+		for _, name := range []string{"A", "B"} {
+			d, err := os.MkdirTemp(TmpBase, "mb")
+			if err != nil {
+				panic(err)
+			}
+			st[name].Dir = mailbox.NewDirHandler(d, false)
+			st[name].tmp = d
+		}
+	}
 	for _, name := range []string{"A", "B"} {
 		for _, ms := range sc.Msgs[name] {
 			m := BuildMessage(ms, calls[name], calls[peerOf(name)], sc.Seed)
